@@ -33,6 +33,13 @@ def instances(tier):
         for ph in sh["phases"]:
             out.append(Instance("C05", "sys_common:s_run", dict(shape=sh, oracle="c05", opts={"phase": ph}),
                                 name="S/%s@%s" % (sid, ph), uf=True, cover=["solved"], weight=20))
+    for sid in ("mux-dead-first", "mux3-dead-patterns"):
+        out.append(Instance("C05", "sys_common:s_real_loop", dict(shape=shapes.real_loop_shapes()[sid], oracle="c05"), name="RL/" + sid, uf=True,
+                            cover=["solved"], weight=20))
+    sh = shapes.real_loop_phase_shapes()["mux-input-inactive"]
+    for ph in sh["phases"]:
+        out.append(Instance("C05", "sys_common:s_real_loop", dict(shape=sh, oracle="c05", opts={"phase": ph}), name="RL/mux-input-inactive@" + ph,
+                            uf=True, cover=["solved"], weight=20))
     if tier == "thorough":
         for sid, sh in shapes.enumerate_mux().items():
             out.append(Instance("C05", "sys_common:s_run", dict(shape=sh, oracle="c05"), name="S/enum/" + sid, uf=True, cover=["solved"],
